@@ -11,9 +11,9 @@ Import ListNotations.
 (* C10's invariant as seen by the queries: under key k, what global_service.lookup answers for a
    parent agrees with the linear scan of its children (every child carrying the value) *)
 Definition LookOK (s : state) (reg : bool) (k : str) (r : rel) : Prop :=
-  forall p, lookup_ok (key_of s k) (lk_of s reg k r p) (kids s r p).
+  forall p, lookup_ok (key_of s k) (fold_of s k) (lk_of s reg k r p) (kids s r p).
 
-Lemma lookok_parents s reg k r ps : LookOK s reg k r -> lookups_ok (key_of s k) (parents_of s reg k r ps).
+Lemma lookok_parents s reg k r ps : LookOK s reg k r -> lookups_ok (key_of s k) (fold_of s k) (parents_of s reg k r ps).
 Proof. intro H. unfold lookups_ok, parents_of. apply Forall_forall. intros pr Hp. apply in_map_iff in Hp as (p & <- & _). apply H. Qed.
 
 Lemma cands_parents s reg k r ps e : In e (cands (parents_of s reg k r ps)) <-> exists p, In p ps /\ In e (kids s r p).
@@ -30,8 +30,8 @@ Proof.
   unfold matches_b, value_matches. cbn [value_or_empty]. rewrite value_matches_glob_eq. cbn [value_or_empty].
   apply glob_star. exists v, []. split; [rewrite app_nil_r; reflexivity|reflexivity].
 Qed.
-Lemma star_sel key e : sel_match true false key star_pat e = true.
-Proof. unfold sel_match, any_match, star_pat. cbn [existsb]. unfold em. rewrite star_matches. reflexivity. Qed.
+Lemma star_sel key fold e : sel_match true false key fold star_pat e = true.
+Proof. unfold sel_match, any_match, star_pat. cbn [existsb]. unfold sm. change (absolute_b true false [STAR]) with false. cbv iota. unfold em. rewrite star_matches. reflexivity. Qed.
 Lemma star_good : ~ In [] star_pat.
 Proof. intros [E|[]]. discriminate E. Qed.
 
@@ -40,6 +40,7 @@ Variable s : state.
 Variable o : qopts.
 Variables (nk : bool) (bk : bkind) (r : rel).
 Notation key := (key_of s (q_key o)).
+Notation fold := (fold_of s (q_key o)).
 Hypothesis HL : LookOK s (q_reg o) (q_key o) r.
 
 (* who is a candidate: a child (carrying the key, for get_instances) of a parent reached, or an
@@ -50,10 +51,10 @@ Definition candidate (ps os : list id) (e : id) : Prop :=
 Theorem two_stage_spec ps os pats res : ~ In [] pats ->
   two_stage s o nk bk r (WOk (ps, os)) pats = WOk res ->
   forall e, In e res <->
-    candidate ps os e /\ sel_match (q_case o) (q_re o) key pats e = true /\ q_cb o e = true.
+    candidate ps os e /\ sel_match (q_case o) (q_re o) key fold pats e = true /\ q_cb o e = true.
 Proof.
   intros Hp H e. unfold two_stage, wmap in H. cbn [fst snd] in H. injection H as <-. rewrite filter_In.
-  rewrite (run_query_spec _ _ key nk bk _ os pats (lookok_parents s _ _ r ps HL) Hp e).
+  rewrite (run_query_spec _ _ key fold nk bk _ os pats (lookok_parents s _ _ r ps HL) Hp e).
   unfold is_cand, candidate. rewrite cands_parents. tauto.
 Qed.
 
@@ -61,11 +62,11 @@ Qed.
 Theorem two_stage_filters_unfiltered ps os pats res ures : ~ In [] pats ->
   two_stage s o nk bk r (WOk (ps, os)) pats = WOk res ->
   two_stage s (unfiltered o) nk bk r (WOk (ps, os)) star_pat = WOk ures ->
-  forall e, In e res <-> In e ures /\ sel_match (q_case o) (q_re o) key pats e = true.
+  forall e, In e res <-> In e ures /\ sel_match (q_case o) (q_re o) key fold pats e = true.
 Proof.
   intros Hp H1 H2 e. rewrite (two_stage_spec ps os pats res Hp H1 e).
   unfold two_stage, wmap in H2. cbn [fst snd unfiltered q_cb q_case q_re q_key q_reg] in H2. injection H2 as <-. rewrite filter_In.
-  rewrite (run_query_spec true false key nk bk _ os star_pat (lookok_parents s _ _ r ps HL) star_good e).
+  rewrite (run_query_spec true false key fold nk bk _ os star_pat (lookok_parents s _ _ r ps HL) star_good e).
   unfold is_cand, candidate. rewrite cands_parents, star_sel. tauto.
 Qed.
 
@@ -76,7 +77,7 @@ Theorem two_stage_perm ps os pats pats' res res' : ~ In [] pats -> Permutation p
   forall e, In e res <-> In e res'.
 Proof.
   intros Hp HP H1 H2 e. unfold two_stage, wmap in H1, H2. cbn [fst snd] in H1, H2. injection H1 as <-. injection H2 as <-. rewrite !filter_In.
-  rewrite (run_query_perm _ _ key nk bk _ os pats pats' (lookok_parents s _ _ r ps HL) Hp HP e). tauto.
+  rewrite (run_query_perm _ _ key fold nk bk _ os pats pats' (lookok_parents s _ _ r ps HL) Hp HP e). tauto.
 Qed.
 
 (* nothing is yielded twice *)
@@ -95,7 +96,7 @@ Theorem two_stage_fast_eq_scan s o nk bk r c pats :
   two_stage s (mkQ false (q_case o) (q_re o) (q_key o) (q_cb o)) nk bk r c pats.
 Proof.
   intro HL. destruct c as [[ps os]| |]; [|reflexivity|reflexivity]. unfold two_stage, wmap. cbn [fst snd q_cb q_case q_re q_key q_reg]. f_equal. f_equal.
-  rewrite (run_query_fast_eq_scan _ _ (key_of s (q_key o)) nk bk _ os pats (lookok_parents s _ _ r ps HL)).
+  rewrite (run_query_fast_eq_scan _ _ (key_of s (q_key o)) (fold_of s (q_key o)) nk bk _ os pats (lookok_parents s _ _ r ps HL)).
   f_equal. unfold with_scan, parents_of. rewrite map_map. reflexivity.
 Qed.
 
@@ -116,7 +117,8 @@ Variable s : state.
 Hypothesis W : QWF s.
 Variable o : qopts.
 Notation key := (key_of s (q_key o)).
-Notation matching pats e := (sel_match (q_case o) (q_re o) key pats e = true /\ q_cb o e = true).
+Notation fold := (fold_of s (q_key o)).
+Notation matching pats e := (sel_match (q_case o) (q_re o) key fold pats e = true /\ q_cb o e = true).
 
 (* ---- get_instances ---- *)
 Theorem query_instances_spec fuel it rec inside pats res :
@@ -229,7 +231,7 @@ Theorem query_netlists_spec fuel it pats res : ~ In [] pats ->
 Proof.
   intros Hp H. unfold query_netlists in H. destruct (cands_netlists s fuel [it]) as [objs| |] eqn:E; try discriminate H.
   cbn [wmap] in H. injection H as <-.
-  destruct (run_netlists_spec (q_case o) (q_re o) key objs pats Hp) as [Hn Hs]. split; [apply NoDup_filter, Hn|].
+  destruct (run_netlists_spec (q_case o) (q_re o) key fold objs pats Hp) as [Hn Hs]. split; [apply NoDup_filter, Hn|].
   intro n. rewrite filter_In, Hs, (cands_netlists_spec s W fuel it objs E n). tauto.
 Qed.
 End PerFunction.
@@ -246,7 +248,7 @@ Definition fn_result (nk : bool) (bk : bkind) (r : rel) (c : wres (list id * lis
 Theorem filters_unfiltered nk bk r c pats res ures :
   LookOK s (q_reg o) (q_key o) r -> ~ In [] pats ->
   fn_result nk bk r c o pats = WOk res -> fn_result nk bk r c (unfiltered o) star_pat = WOk ures ->
-  forall e, In e res <-> In e ures /\ sel_match (q_case o) (q_re o) (key_of s (q_key o)) pats e = true.
+  forall e, In e res <-> In e ures /\ sel_match (q_case o) (q_re o) (key_of s (q_key o)) (fold_of s (q_key o)) pats e = true.
 Proof.
   intros HL Hp H1 H2. unfold fn_result in *. destruct (two_stage_ok _ _ _ _ _ _ _ _ H1) as (ps & os & ->).
   apply (two_stage_filters_unfiltered s o nk bk r HL ps os pats res ures Hp H1 H2).
@@ -287,14 +289,17 @@ Qed.
 
 Lemma scan_lookup_same s xs v : NoDup xs ->
   (forall c1 c2 w, In c1 xs -> In c2 xs -> key_of s str_NAME c1 = Some w -> key_of s str_NAME c2 = Some w -> c1 = c2) ->
-  opt_list (NS.scan_lookup s xs str_NAME v) = Filter.scan_lookup (key_of s str_NAME) xs v.
+  opt_list (NS.scan_lookup s xs str_NAME v) = Filter.scan_lookup (key_of s str_NAME) (fold_of s str_NAME) xs v.
 Proof.
   intros Hnd Hu. unfold NS.scan_lookup, Filter.scan_lookup.
-  rewrite (find_ext _ (fun c => match key_of s str_NAME c with Some w => str_eqb v w | None => false end)).
+  rewrite (find_ext _ (fun c => has_key (key_of s str_NAME) c && xeq (key_of s str_NAME) (fold_of s str_NAME) v c)).
   - apply find_is_filter; [exact Hnd|]. intros a b Ha Hb Fa Fb.
+    unfold has_key, xeq, Filter.val, fold_of in Fa, Fb. change (str_eqb str_NAME str_IDENT) with false in Fa, Fb. cbn [andb] in Fa, Fb.
     destruct (key_of s str_NAME a) as [wa|] eqn:Ka; [|discriminate]. destruct (key_of s str_NAME b) as [wb|] eqn:Kb; [|discriminate].
+    cbn [value_or_empty andb] in Fa, Fb.
     apply str_eqb_spec in Fa. apply str_eqb_spec in Fb. subst wa wb. apply (Hu a b v Ha Hb Ka Kb).
-  - intro x. unfold key_of, get_str. destruct (sassoc str_NAME (data s x)) as [[w| | |]|]; reflexivity.
+  - intro x. unfold has_key, xeq, Filter.val, fold_of, key_of, get_str. change (str_eqb str_NAME str_IDENT) with false. cbn [andb].
+    destruct (sassoc str_NAME (data s x)) as [[w| | |]|]; reflexivity.
 Qed.
 
 (* under .NAME the namespace table answers like the scan: sibling names are pairwise different (C10)
@@ -330,13 +335,14 @@ Section Clauses.
 Variable s : state.
 Variable o : qopts.
 Notation key := (key_of s (q_key o)).
+Notation fold := (fold_of s (q_key o)).
 Notation o_scan := (mkQ false (q_case o) (q_re o) (q_key o) (q_cb o)).
 
 Theorem instances_filters_unfiltered fuel roots rec inside pats res ures :
   LookOK s (q_reg o) (q_key o) RChildren -> ~ In [] pats ->
   query_instances s o fuel roots rec inside pats = WOk res ->
   query_instances s (unfiltered o) fuel roots rec inside star_pat = WOk ures ->
-  forall e, In e res <-> In e ures /\ sel_match (q_case o) (q_re o) key pats e = true.
+  forall e, In e res <-> In e ures /\ sel_match (q_case o) (q_re o) key fold pats e = true.
 Proof. apply filters_unfiltered. Qed.
 Theorem instances_pattern_order fuel roots rec inside pats pats' res res' :
   LookOK s (q_reg o) (q_key o) RChildren -> ~ In [] pats -> Permutation pats pats' ->
@@ -352,7 +358,7 @@ Theorem definitions_filters_unfiltered fuel roots rec inside pats res ures :
   LookOK s (q_reg o) (q_key o) RDefs -> ~ In [] pats ->
   query_definitions s o fuel roots rec inside pats = WOk res ->
   query_definitions s (unfiltered o) fuel roots rec inside star_pat = WOk ures ->
-  forall e, In e res <-> In e ures /\ sel_match (q_case o) (q_re o) key pats e = true.
+  forall e, In e res <-> In e ures /\ sel_match (q_case o) (q_re o) key fold pats e = true.
 Proof. apply filters_unfiltered. Qed.
 Theorem definitions_pattern_order fuel roots rec inside pats pats' res res' :
   LookOK s (q_reg o) (q_key o) RDefs -> ~ In [] pats -> Permutation pats pats' ->
@@ -368,7 +374,7 @@ Theorem libraries_filters_unfiltered fuel roots rec inside pats res ures :
   LookOK s (q_reg o) (q_key o) RLibs -> ~ In [] pats ->
   query_libraries s o fuel roots rec inside pats = WOk res ->
   query_libraries s (unfiltered o) fuel roots rec inside star_pat = WOk ures ->
-  forall e, In e res <-> In e ures /\ sel_match (q_case o) (q_re o) key pats e = true.
+  forall e, In e res <-> In e ures /\ sel_match (q_case o) (q_re o) key fold pats e = true.
 Proof. apply filters_unfiltered. Qed.
 Theorem libraries_pattern_order fuel roots rec inside pats pats' res res' :
   LookOK s (q_reg o) (q_key o) RLibs -> ~ In [] pats -> Permutation pats pats' ->
@@ -384,7 +390,7 @@ Theorem ports_filters_unfiltered fuel roots pats res ures :
   LookOK s (q_reg o) (q_key o) RPorts -> ~ In [] pats ->
   query_ports s o fuel roots pats = WOk res ->
   query_ports s (unfiltered o) fuel roots star_pat = WOk ures ->
-  forall e, In e res <-> In e ures /\ sel_match (q_case o) (q_re o) key pats e = true.
+  forall e, In e res <-> In e ures /\ sel_match (q_case o) (q_re o) key fold pats e = true.
 Proof. apply filters_unfiltered. Qed.
 Theorem ports_pattern_order fuel roots pats pats' res res' :
   LookOK s (q_reg o) (q_key o) RPorts -> ~ In [] pats -> Permutation pats pats' ->
@@ -405,7 +411,7 @@ Theorem cables_filters_unfiltered fuel roots rec x pats res ures :
   LookOK s (q_reg o) (q_key o) RCables -> ~ In [] pats ->
   query_cables s o fuel roots rec x pats = WOk res ->
   query_cables s (unfiltered o) fuel roots rec x star_pat = WOk ures ->
-  forall e, In e res <-> In e ures /\ sel_match (q_case o) (q_re o) key pats e = true.
+  forall e, In e res <-> In e ures /\ sel_match (q_case o) (q_re o) key fold pats e = true.
 Proof. apply filters_unfiltered. Qed.
 Theorem cables_pattern_order fuel roots rec x pats pats' res res' :
   LookOK s (q_reg o) (q_key o) RCables -> ~ In [] pats -> Permutation pats pats' ->
